@@ -303,8 +303,15 @@ def gen_placement_case(rng):
     text = "builtin.module {\n  func.func @main(" + args + ") {\n" + "\n".join(lines) + "\n    func.return\n  }\n}\n"
     start = rng.choice([0x10000000, 0x10000000, 0, 64, 0x1004, 100])
     total = sum(b["n"] * 4 + 64 for b in bufs)
+    # generous, huge, too small, and *tight* memories (the plain sum of the sizes plus little slack: alignment padding decides
+    # whether the last buffer still fits, so an allocator must refuse rather than place it past the end)
+    exact = sum(b["n"] * 4 for b in bufs)
     cap = rng.choice([total * 2, total * 2, 65536, max(64, total // 2)])
     mode = rng.choice(["static", "minimalloc", "minimalloc", "auto"])
+    if rng.random() < 0.25:
+        cap = exact + rng.choice([0, 4, 16, 40, 100, 200])
+        if rng.random() < 0.7:
+            mode = "static"
     return {"part": "b", "text": text, "start": start, "cap": cap, "mode": mode, "nconds": cond_n[0], "skel": "".join(skel), "nb": nb}
 
 
